@@ -80,7 +80,7 @@ def build():
             labels = [('mask', props), ('pre', props)] if f == 'open' else [('item', props), ('keeps', props)]
             extra = {}
             if gname.endswith('_entities') and f == 'get':
-                extra = dict(closures={'|gen|': dict(params='gen: Generation', ret='r__: Generation',
+                extra = dict(closures={'map:|gen|': dict(params='gen: Generation', ret='r__: Generation',
                                                      requires=[('range', 'gen.0@ != 0 && gen.0@ > i32::MIN + 1')],
                                                      ensures=[('val', 'r__.0@ == (if gen.0@ > 0 { gen.0@ as int } else { 1 - gen.0@ })')])},
                              hints=[('start', None, 'proof { lemma_gid_facts(&v.alloc, id); }')])
